@@ -241,7 +241,7 @@ func c01Run(c c01Case, st *fw.Stats) []fw.Viol {
 var c01Spec = fw.Spec[c01Case]{
 	ID:    "C01",
 	Level: "model_checking",
-	Rule: "complete product: ordered route tables of <=K distinct patterns from a 27-pattern pool (every index/tier shortcut has colliding members) x method sets x registration APIs (Add, AddRoute(NewRoute), AddNamed, NewNamedRoute.AttachTo, GET/POST/... helpers, options via WithOptions) x request methods x all 259 paths of <=3 segments over {a,b,a.b,axb,12,q.html}; " +
+	Rule: "complete product: ordered route tables of <=K distinct patterns from a 27-pattern pool (every index/tier shortcut has colliding members) x method sets x registration APIs (Add, AddRoute(NewRoute), AddNamed, NewNamedRoute.AttachTo, GET/POST/... helpers, options via WithOptions, the pattern split into a Group prefix and a route path) x request methods x all 259 paths of <=3 segments over {a,b,a.b,axb,12,q.html}; " +
 		"each (table,method,path) is one evaluation: Router.Match and ServeHTTP on the real router vs refmodel.Resolve; non-trivial = at least two routes qualify or the winner is not the first registered route",
 	Assume: []string{
 		"patterns and paths are drawn from the stated alphabets; larger tables are covered only as far as the small-scope hypothesis goes",
